@@ -357,7 +357,7 @@ func c08unit(c *Ctx, u *routeUnit, ch, node *lab.Child, enc *jsonmap.Encoder) {
 
 func subOf(u *routeUnit) string {
 	p := u.File.Package
-	for _, s := range []string{"main", "noslash", "pathquery", "bodyquery"} {
+	for _, s := range []string{"main", "noslash", "pathquery", "bodyquery", "shared"} {
 		if strings.HasSuffix(p, s) {
 			return s
 		}
